@@ -10,6 +10,7 @@ RPC = "src/node/node_rpc.go"
 PSF = "src/peers/peer_set.go"
 MEDF = "src/common/median.go"
 BSF = "src/hashgraph/badger_store.go"
+EVF = "src/hashgraph/event.go"
 
 def M(id, prop, rule, *edits):
     return {"id": id, "prop": prop, "rule": rule, "edits": list(edits)}
@@ -152,6 +153,17 @@ MUTANTS = [
  M("c16-key-unpadded", "C16", "C16.keys", (BSF, "return []byte(fmt.Sprintf(\"%s_%09d\", topoPrefix, index))", "return []byte(fmt.Sprintf(\"%s_%d\", topoPrefix, index))")),
  M("c16-key-narrow-pad", "C16", "C16.keys", (BSF, "return []byte(fmt.Sprintf(\"%s__event_%09d\", participant, index))", "return []byte(fmt.Sprintf(\"%s__event_%04d\", participant, index))")),
  M("c16-event-plain-unmarshal", "C16", "C16.codec", (BSF, "\tevent := new(Event)\n\tif err := event.UnmarshalDB(eventBytes); err != nil {\n\t\treturn nil, err\n\t}\n\n\treturn event, nil", "\tevent := new(Event)\n\tif err := json.Unmarshal(eventBytes, event); err != nil {\n\t\treturn nil, err\n\t}\n\n\treturn event, nil"), (BSF, "import (\n\t\"fmt\"\n", "import (\n\t\"encoding/json\"\n\t\"fmt\"\n")),
+ # ---- C15
+ M("c15-new-exported-field", "C15", "C15.wire", (EVF, "\tTimestamp            int64                 // Unix timestamp when Event was created (seconds since January 1st, 1970)\n", "\tTimestamp            int64                 // Unix timestamp when Event was created (seconds since January 1st, 1970)\n\tNonce                uint32                // random nonce\n")),
+ M("c15-wire-drops-timestamp", "C15", "C15.wire", (HGF, "\t\tTimestamp:            wevent.Body.Timestamp,\n", "")),
+ M("c15-towire-wrong-index", "C15", "C15.wire", (EVF, "\t\t\tIndex:                e.Body.Index,\n", "\t\t\tIndex:                e.Body.selfParentIndex + 1,\n")),
+ M("c15-creator-from-other-parent", "C15", "C15.wire", (HGF, "\tcreator, ok := h.Store.RepertoireByID()[wevent.Body.CreatorID]", "\tcreator, ok := h.Store.RepertoireByID()[wevent.Body.OtherParentCreatorID]")),
+ M("c15-db-drops-topological", "C15", "C15.db", (EVF, "\te.topologicalIndex = wrapper.TopologicalIndex\n", "")),
+ M("c15-db-swapped-coordinates", "C15", "C15.db", (EVF, "\te.lastAncestors = wrapper.LastAncestors\n\te.firstDescendants = wrapper.FirstDescendants\n", "\te.lastAncestors = wrapper.FirstDescendants\n\te.firstDescendants = wrapper.LastAncestors\n")),
+ M("c15-exported-hash-cache", "C15", "C15.caches", (EVF, "\tcreator string\n\thash    []byte\n\thex     string\n}", "\tcreator string\n\thash    []byte\n\tHexCache string\n}"), (EVF, "\tif e.hex == \"\" {\n\t\thash, _ := e.Hash()\n\t\te.hex = common.EncodeToString(hash)\n\t}\n\n\treturn e.hex", "\tif e.HexCache == \"\" {\n\t\thash, _ := e.Hash()\n\t\te.HexCache = common.EncodeToString(hash)\n\t}\n\n\treturn e.HexCache")),
+ M("c15-hash-cache-written-elsewhere", "C15", "C15.caches", (EVF, "\te.Signature = wrapper.Signature\n", "\te.Signature = wrapper.Signature\n\te.hex = wrapper.Signature\n")),
+ M("c15-json-tag-hides-field", "C15", "C15.frame", ("src/hashgraph/frame.go", "\tTimestamp int64                 // unix timestamp (median of round-received famous witnesses)", "\tTimestamp int64 `json:\"-\"`        // unix timestamp (median of round-received famous witnesses)")),
+ M("c15-frame-not-canonical", "C15", "C15.frame", ("src/hashgraph/frame.go", "// Marshal returns the JSON encoding of Frame.\nfunc (f *Frame) Marshal() ([]byte, error) {\n\tb := new(bytes.Buffer)\n\tjh := new(codec.JsonHandle)\n\tjh.Canonical = true\n", "// Marshal returns the JSON encoding of Frame.\nfunc (f *Frame) Marshal() ([]byte, error) {\n\tb := new(bytes.Buffer)\n\tjh := new(codec.JsonHandle)\n")),
 ]
 
 BENIGN = [
@@ -191,4 +203,7 @@ BENIGN = [
 
  B("c16-benign-wider-pad", "C16", (BSF, "return []byte(fmt.Sprintf(\"%s_%09d\", roundPrefix, index))", "return []byte(fmt.Sprintf(\"%s_%012d\", roundPrefix, index))")),
  B("c16-benign-early-maintenance", "C16", (BSF, "\tif err := s.inmemStore.SetFrame(frame); err != nil {\n\t\treturn err\n\t}\n\n\tif s.maintenanceMode {\n\t\treturn nil\n\t}\n\treturn s.dbSetFrame(frame)", "\tif err := s.inmemStore.SetFrame(frame); err != nil {\n\t\treturn err\n\t}\n\n\tif !s.maintenanceMode {\n\t\tif err := s.dbSetFrame(frame); err != nil {\n\t\t\treturn err\n\t\t}\n\t}\n\treturn nil")),
+
+ B("c15-benign-new-unexported-cache", "C15", (EVF, "\tcreator string\n\thash    []byte\n\thex     string\n}", "\tcreator string\n\thash    []byte\n\thex     string\n\n\tseenAt int64\n}")),
+ B("c15-benign-literal-order", "C15", (HGF, "\t\tIndex:                wevent.Body.Index,\n\t\tTimestamp:            wevent.Body.Timestamp,\n", "\t\tTimestamp:            wevent.Body.Timestamp,\n\t\tIndex:                wevent.Body.Index,\n")),
 ]
